@@ -245,7 +245,8 @@ func Protect(object interface{}, mu *sync.Mutex) {}
 func ProtectRW(object interface{}, mu *sync.Mutex) {}
 
 // TOMLBytesFail is TOMLBytes with a chosen decoder outcome: 0 the text decodes to v; 1 a syntax error (the
-// library reports a *toml.DecodeError); 2 an unknown field (strict-mode error, not a DecodeError).
+// library reports a *toml.DecodeError); 2 an unknown field (*toml.StrictMissingError); 3 a value of the wrong kind
+// for a known field (a plain error that is neither).
 func TOMLBytesFail(v interface{}, kind int) []byte {
 	b := TOMLBytes(v)
 	switch kind {
@@ -253,6 +254,24 @@ func TOMLBytesFail(v interface{}, kind int) []byte {
 		return append(b, []byte("\n= broken [\n")...)
 	case 2:
 		return append([]byte("verif_unknown_field = 1\n"), b...)
+	case 3:
+		// a value of the wrong kind for a known field (go-toml reports a plain error for it, neither a
+		// DecodeError nor a StrictMissingError): a top-level string field is given an integer
+		lines := strings.Split(string(b), "\n")
+		for i, l := range lines {
+			if j := strings.Index(l, " = '"); j > 0 && !strings.HasPrefix(l, "[") && !strings.HasPrefix(l, " ") {
+				lines[i] = l[:j] + " = 0"
+				return []byte(strings.Join(lines, "\n"))
+			}
+			if j := strings.Index(l, " = \""); j > 0 && !strings.HasPrefix(l, "[") && !strings.HasPrefix(l, " ") {
+				lines[i] = l[:j] + " = 0"
+				return []byte(strings.Join(lines, "\n"))
+			}
+			if strings.HasPrefix(l, "[") {
+				break
+			}
+		}
+		return append([]byte("collision_mode = 0\n"), b...)
 	}
 	return b
 }
